@@ -8,12 +8,13 @@ import (
 // integers (so rapid owns all randomness and shrinks towards the canonical
 // layout, which is what all-zero choices give).
 type Style struct {
-	Choices  []int `json:"choices"`
-	Rename   bool  `json:"rename"`    // alpha-convert labels / equ names / counters
-	EquPlace int   `json:"equ_place"` // 0 in place, 1 hoisted to the top, 2 sunk to the bottom
-	StartEnd bool  `json:"start_end"` // entry point given as `END e` at the bottom instead of `ORG e`
-	NoFinalN bool  `json:"no_final_newline"`
-	pos      int
+	Choices      []int `json:"choices"`
+	Rename       bool  `json:"rename"`    // alpha-convert labels / equ names / counters
+	EquPlace     int   `json:"equ_place"` // 0 in place, 1 hoisted to the top, 2 sunk to the bottom
+	StartEnd     bool  `json:"start_end"` // entry point given as `END e` at the bottom instead of `ORG e`
+	NoFinalN     bool  `json:"no_final_newline"`
+	LeadingZeros bool  `json:"leading_zeros"` // literals may be written with leading zeros
+	pos          int
 }
 
 func (s *Style) pick(n int) int {
@@ -144,6 +145,10 @@ func (s *Style) expr(ts []Tok, rn map[string]string) string {
 			if strings.HasPrefix(t.V, "-") {
 				sb.WriteString("(" + t.V + ")")
 			} else {
+				// decimal literals may carry leading zeros (they never mean octal)
+				if s.LeadingZeros {
+					sb.WriteString([]string{"", "", "", "0", "00", "000"}[s.pick(6)])
+				}
 				sb.WriteString(t.V)
 			}
 		default:
